@@ -4,7 +4,7 @@ import os
 import sys
 from abc import ABC, abstractmethod
 from enum import Enum
-from typing import BinaryIO, Optional, Dict, List, TextIO, Any
+from typing import BinaryIO, Optional, Dict, List, Set, TextIO, Any
 
 import dnaio
 from xopen import xopen
@@ -219,12 +219,34 @@ class OutputFiles:
         self._to_close: List[BinaryIO] = []
         self._qualities = qualities
         self._interleaved = interleaved
+        self._claimed_paths: Set[str] = set()
+
+    def _claim(self, path) -> None:
+        """
+        Raise an error if the regular file at path has already been opened for
+        writing. (Two writers on one file overwrite each other's records. This
+        happens if a name generated from a {name} template is the same as
+        another output file name.)
+        """
+        if path is None or path == "-":
+            return
+        if os.path.exists(path) and not os.path.isfile(path):
+            # assumed to be FIFO, /dev/null etc.
+            return
+        resolved = os.path.realpath(path)
+        if resolved in self._claimed_paths:
+            raise OSError(
+                f"Output file '{path}' would be written to by more than one output. "
+                "Choose different file names (or adapter names when demultiplexing)."
+            )
+        self._claimed_paths.add(resolved)
 
     def open_text(self, path):
         # TODO
         # - serial runner needs only text_file
         # - parallel runner needs binary_file and proxy_file
         # split into SerialOutputFiles and ParallelOutputFiles?
+        self._claim(path)
         if self._proxied:
             binary_file = self._file_opener.xopen(path, "wb")
             self._binary_files.append(binary_file)
@@ -264,6 +286,7 @@ class OutputFiles:
             assert path is not None
         binary_files = []
         for path in paths:
+            self._claim(path)
             binary_file = self._file_opener.xopen(path, "wb")
             binary_files.append(binary_file)
             self._binary_files.append(binary_file)
